@@ -345,6 +345,20 @@ func schedOp(w *schedWorld, name string) func() string {
 	case "ExecutionAllowed":
 		err := w.inv.ExecutionAllowed(w.store)
 		return func() string { return errStr(err) }
+	case "ExecutionAllowedEmptyStore", "ExecutionAllowedPartialStore":
+		// the same check against another store: nothing an earlier check learnt may answer for it
+		other := container.Reader{}
+		if op == "ExecutionAllowedPartialStore" {
+			for i, c := range w.cids[:len(w.dlgs)] {
+				if i != len(w.dlgs)-1 {
+					if d, err := w.store.GetDelegation(c); err == nil {
+						other[c] = d
+					}
+				}
+			}
+		}
+		err := w.inv.ExecutionAllowed(other)
+		return func() string { return errStr(err) }
 	case "ExecutionAllowedHook":
 		err := w.inv.ExecutionAllowedWithArgsHook(w.store, func(ro args.ReadOnly) (*args.Args, error) { return ro.WriteableClone(), nil })
 		return func() string { return errStr(err) }
@@ -1082,7 +1096,7 @@ func genSched(r *Rand, g GenCfg) Plan {
 	for i := 0; i < nl; i++ {
 		targets = append(targets, fmt.Sprintf("dlg%d", i))
 	}
-	invOps := []string{"ExecutionAllowed", "ExecutionAllowed", "ExecutionAllowed", "ExecutionAllowed", "ExecutionAllowed", "ExecutionAllowedHook", "ToSealed", "ToSealedWriter", "ToDagCbor", "ToDagJson", "Encode", "Accessors", "Derived", "IsValid",
+	invOps := []string{"ExecutionAllowed", "ExecutionAllowed", "ExecutionAllowed", "ExecutionAllowed", "ExecutionAllowed", "ExecutionAllowedHook", "ExecutionAllowedEmptyStore", "ExecutionAllowedPartialStore", "ToSealed", "ToSealedWriter", "ToDagCbor", "ToDagJson", "Encode", "Accessors", "Derived", "IsValid",
 		"ArgsIter", "ArgsString", "ArgsToIPLD", "ArgsGetNode", "ArgsEquals", "ArgsClone", "ArgsCloneMutate", "MetaCloneMutate", "ExecutionAllowedHookAdd", "MetaIter", "MetaString", "MetaGet", "MetaGetEncrypted", "MetaEquals", "MetaClone",
 		"StoreGet", "StoreIter", "ContainerWrite"}
 	dlgOps := []string{"ToSealed", "ToSealedWriter", "ToDagJson", "Encode", "Accessors", "Derived", "Derived", "IsValid", "MetaIter", "MetaString", "MetaGet", "MetaEquals", "MetaClone", "MetaCloneMutate", "PolicyString", "PolicyMatch", "PolicyMatchAlt", "PolicyMatchAlt", "StoreGet"}
